@@ -212,6 +212,8 @@ pub fn outcome_json<R: pest::RuleType>(
             match &e.variant {
                 pest::error::ErrorVariant::ParsingError { positives, negatives } => json!({
                     "k": "fail", "pos": pos,
+                    // strictly increasing in the rule type's own order = sorted without duplicates
+                    "sorted": positives.windows(2).all(|w| w[0] < w[1]) && negatives.windows(2).all(|w| w[0] < w[1]),
                     "positives": positives.iter().map(|r| name(*r)).collect::<Vec<_>>(),
                     "negatives": negatives.iter().map(|r| name(*r)).collect::<Vec<_>>()}),
                 pest::error::ErrorVariant::CustomError { message } => {
